@@ -26,6 +26,8 @@ def cells(tier):
     out.append(cell("c2 r1 put|put join cancel0", consumers=2, rounds=1, actors=[[P], [P], [J], [["cancel", 0]]]))
     out.append(cell("c2 r2 put,put,put join cancel1", consumers=2, rounds=2, actors=[[P, P, P], [J], [["cancel", 1]]]))
     out.append(cell("c1 r2 put join put", consumers=1, rounds=2, actors=[[P], [J], [P]]))
+    out.append(cell("c2 r1 put,put join (block left by return / exception / exception group)", consumers=2, rounds=1, actors=[[P, P], [J]],
+                    outcomes=["ret", "exc", "group"]))
     A = ["aput"]
     out.append(cell("bounded1 c1 r2 aput,aput join", consumers=1, rounds=2, maxsize=1, actors=[[A, A], [J]]))
     out.append(cell("bounded1 c2 r1 aput|aput|aput join cancel0", consumers=2, rounds=1, maxsize=1, actors=[[A], [A], [A], [J], [["cancel", 0]]]))
